@@ -315,6 +315,36 @@ func runECase(ec ECase) (*Fail, []string, map[string]int, error) {
 		if m := takeFatal(); m != "" {
 			return fail("election|process-exit", m, "C09", "C14"), trace, labels, nil
 		}
+		// the bookkeeping agrees with itself after every step of a bootstrap, failed or not (C18)
+		{
+			vs := st.C.VerifState()
+			nrw := 0
+			seen := map[string]bool{}
+			for _, r := range vs.Replicas {
+				if seen[r.Address] {
+					return fail("bookkeeping|duplicate-address|after="+op.K, fmt.Sprintf("%v", vs.Replicas), "C18"), trace, labels, nil
+				}
+				seen[r.Address] = true
+				if r.Mode == types.RW {
+					nrw++
+				}
+				if m, ok := vs.Backends[r.Address]; !ok || m != r.Mode {
+					return fail("bookkeeping|backend-mode|after="+op.K, fmt.Sprintf("list %v, backends %v", vs.Replicas, vs.Backends), "C18"), trace, labels, nil
+				}
+			}
+			if len(vs.Backends) != len(vs.Replicas) {
+				return fail("bookkeeping|backends-vs-list|after="+op.K, fmt.Sprintf("list %v, backends %v", vs.Replicas, vs.Backends), "C18"), trace, labels, nil
+			}
+			if len(vs.Replicas) > ec.RF {
+				return fail("bookkeeping|more-than-RF|after="+op.K, fmt.Sprintf("%d replicas listed, RF=%d", len(vs.Replicas), ec.RF), "C18"), trace, labels, nil
+			}
+			if vs.RWReplicaCount != nrw {
+				return fail("bookkeeping|rw-count|after="+op.K, fmt.Sprintf("RWReplicaCount=%d but %d RW entries: %v", vs.RWReplicaCount, nrw, vs.Replicas), "C18", "C03"), trace, labels, nil
+			}
+			if wantRO := nrw < ec.RF/2+1; vs.ReadOnly != wantRO && len(vs.Replicas) > 0 {
+				return fail("readonly|stale|after="+op.K, fmt.Sprintf("ReadOnly=%v with %d RW of RF=%d (%v)", vs.ReadOnly, nrw, ec.RF, vs.Replicas), "C03"), trace, labels, nil
+			}
+		}
 	}
 	return nil, trace, labels, nil
 }
@@ -425,9 +455,10 @@ func max(a, b int) int {
 	return b
 }
 
-// TestC09 — bootstrap elects the most up-to-date replica after a majority registered.
-func TestC09(t *testing.T) {
-	rec := NewRecorder("C09", "TestC09")
+// runElectionProperty drives the scripted bootstrap programs for one property:
+// C09 (election safety) or C18 (the bookkeeping after every step of a bootstrap).
+func runElectionProperty(t *testing.T, prop, test string) {
+	rec := NewRecorder(prop, test)
 	defer rec.Flush(t)
 	run := func(ec ECase, fatalf func(string, ...interface{})) {
 		f, trace, labels, err := runECase(ec)
@@ -443,22 +474,27 @@ func TestC09(t *testing.T) {
 		rec.Case(ec, labels["start-signal-ok"] > 0 && labels["register"] >= 2, ls...)
 		if f != nil {
 			detail := f.Detail + "\ntrace:\n  " + strings.Join(tail(trace, 30), "\n  ")
-			if rec.Fail("C09", "C09|"+f.Sig, detail, ec) {
+			if !f.Has(prop) {
+				rec.Label("crossfinding:"+strings.Join(f.Props, "+")+":"+f.Sig, 1)
+				rec.Cross(f.String()+"\n"+detail, ec)
 				return
 			}
-			fatalf("VIOLATION C09 %s: %s", f.Sig, detail)
+			if rec.Fail(prop, prop+"|"+f.Sig, detail, ec) {
+				return
+			}
+			fatalf("VIOLATION %s %s: %s", prop, f.Sig, detail)
 		}
 	}
 	var rp ECase
 	if isReplay, err := LoadReplay(&rp); isReplay {
 		if err != nil || len(rp.Specs) == 0 {
-			t.Skip("replay file is for another C09 test")
+			t.Skip("replay file is for another test")
 		}
 		run(rp, t.Fatalf)
 		return
 	}
 	if firstShard() {
-		for _, rf := range regressFiles("TestC09") {
+		for _, rf := range regressFiles(test) {
 			var c ECase
 			if err := loadCaseFile(rf, &c); err != nil {
 				t.Fatalf("HARNESS ERROR: bad regression file %s: %v", rf, err)
@@ -469,5 +505,12 @@ func TestC09(t *testing.T) {
 	}
 	rapid.Check(t, func(rt *rapid.T) { run(genECase(rt), rt.Fatalf) })
 }
+
+// TestC09 — bootstrap elects the most up-to-date replica after a majority registered.
+func TestC09(t *testing.T) { runElectionProperty(t, "C09", "TestC09") }
+
+// TestC18Bootstrap — the membership bookkeeping stays consistent through
+// registrations, failed and multi-address starts and a second bootstrap.
+func TestC18Bootstrap(t *testing.T) { runElectionProperty(t, "C18", "TestC18Bootstrap") }
 
 // TestC09EndToEnd is filled in below (c09_e2e_test.go).
